@@ -170,6 +170,37 @@ theorem lastPut_append (sid : Nat) (a b : List (SOp κ)) :
       cases lastPut sid b <;> simp
     | map i o => simpa [lastPut] using ih
 
+@[simp] theorem sid_put (i : Nat) (b : Bytes) : (SOp.put i b : SOp κ).sid = i := rfl
+@[simp] theorem sid_map (i : Nat) (o : KOp κ) : (SOp.map i o : SOp κ).sid = i := rfl
+
+theorem lastPut_filter (sid : Nat) (ops : List (SOp κ)) :
+    lastPut sid (ops.filter (fun o => o.sid = sid)) = lastPut sid ops := by
+  induction ops with
+  | nil => rfl
+  | cons o rest ih =>
+    cases o with
+    | put i b =>
+      by_cases hi : i = sid
+      · simp [List.filter_cons, hi, lastPut, ih]
+      · simp only [List.filter_cons, sid_put, hi, decide_false, lastPut, Bool.false_eq_true, ↓reduceIte]
+        rw [ih]
+        cases lastPut sid rest <;> simp
+    | map i o =>
+      by_cases hi : i = sid
+      · simp [List.filter_cons, hi, lastPut, ih]
+      · simp [List.filter_cons, hi, lastPut, ih]
+
+theorem mapOpsFor_filter (sid : Nat) (ops : List (SOp κ)) :
+    mapOpsFor sid (ops.filter (fun o => o.sid = sid)) = mapOpsFor sid ops := by
+  induction ops with
+  | nil => rfl
+  | cons o rest ih =>
+    cases o with
+    | put i b => by_cases hi : i = sid <;> simp [List.filter_cons, hi, mapOpsFor, ih]
+    | map i o => by_cases hi : i = sid <;> simp [List.filter_cons, hi, mapOpsFor, ih]
+
+theorem kGet_nil_fun : kGet ([] : List (κ × Bytes)) = fun _ => none := by funext k; rfl
+
 /-! ### the init protocol -/
 
 theorem initStream_commands {μ : Type} (l : List μ) :
